@@ -1,3 +1,4 @@
+import Woodpile.Driver.Unwind
 import Woodpile.Driver.Util
 import Woodpile.Driver.Iovec
 import Woodpile.Model.EncWorld
@@ -278,6 +279,12 @@ def step (s : St) (ws : List String) : St × List String :=
     | _, _ => (s, ["bad-op"])
   | _ => stepRest s ws
 
-def family : Family := { σ := St, init := St.init, step := step }
+/-- may `unwinding <ws>` run?  No op of this vocabulary is specified to panic (the harness wraps any op);
+an op the model cannot run (`bad-op`) or panics on is refused. -/
+def unwindSafe (s : St) (ws : List String) : Bool :=
+  let out := (step s ws).2
+  !(out.contains "panic") && !(out.contains "bad-op")
+
+def family : Family := withUnwind { σ := St, init := St.init, step := step } unwindSafe
 
 end Woodpile.Driver.CodecWFam
